@@ -80,6 +80,15 @@ Theorem probability_rows_sum_1 (sqrtf expf : Q -> Q) (L : layer) (A : smat) (F :
 Proof. exact (probability_rows sqrtf expf L A F). Qed.
 Print Assumptions probability_rows_sum_1.
 
+(** ... which is necessary: a multi-channel BinaryCrossEntropy output layer (independent sigmoids) has rows
+    that do not sum to 1. *)
+Theorem probability_rows_bce_multi_refuted :
+  exists (expf : Q -> Q) (L : layer) (A : smat) (F : feats),
+    (forall x, 0 < expf x)%Q /\ l_act L = BinaryCrossEntropyLoss /\ l_out L = 3 /\
+    exists row, In row (forward (fun x => x) expf L A F) /\ ~ (sumq row == 1)%Q.
+Proof. exact GnnProofs.probability_rows_bce_multi_refuted. Qed.
+Print Assumptions probability_rows_bce_multi_refuted.
+
 (** predict_proba returns the output unchanged when there are at least two channels ... *)
 Theorem predict_proba_multi (output : dmat) (o : nat) :
   2 <= o -> (forall row, In row output -> length row = o) -> predict_proba output = Ok output.
